@@ -1,8 +1,9 @@
 (* model-side driver for C10: line protocol, one case per line (fields separated by TAB)
-     seq    <fused> <cap> <ops>              single-goroutine history: s<v> | r | i | c   (comma separated)
+     seq    <cap> <ops>                      single-goroutine history: s<v> | r | i | c | k | m  (comma separated)
+                                             i = one range step (Take), k = keys(ch), m = map(ch) (Next/Entry protocol to the end)
      accept <progs> <logs>                   observed per-receiver logs against the acceptor
-     reach  <fused> <cap> <progs> <kinds>    all outcomes of the fixed protocol (senders, closer, receivers)
-   fused = 0: ForIter is Chan.Next then Chan.Entry (two steps); 1: one step (Chan.NextEntry, the repair)
+     reach  <cap> <progs> <kinds>            all outcomes of the fixed protocol (senders, closer, receivers)
+                                             kinds: r = receive loop, i = range loop (Take), p = Next/Entry protocol loop
      spawn  <copy> <vals> <args> <assigns> <pokes> <kind> <nwait>
    progs: senders separated by ';', values by ','.   logs: receivers by ';', entries i:v by ','. *)
 open Chan_model
@@ -42,6 +43,7 @@ let ev_str (e : ev) : string =
   | EvRecv (_, (_, v)) -> Printf.sprintf "recv:%d" (int_of_n v)
   | EvRecvNil _ -> "nil"
   | EvNext _ -> "next"
+  | EvTaken _ -> "taken"
   | EvStore _ -> "store"
   | EvCount _ -> "count"
   | EvIterEnd _ -> "end"
@@ -54,11 +56,11 @@ let ev_str (e : ev) : string =
   | EvIterCtx _ -> "iterctx"
 
 (* ---- seq *)
-let do_seq fused cap ops =
+let do_seq cap ops =
   let ops = split ',' ops in
   let vals = List.filter_map (fun o -> if String.length o > 0 && o.[0] = 's'
                                then Some (n_of_int (int_of_string (String.sub o 1 (String.length o - 1)))) else None) ops in
-  let s = ref (chan_init fused (nat_of_int cap) (fun i -> match i with O -> vals | _ -> [])) in
+  let s = ref (chan_init (nat_of_int cap) (fun i -> match i with O -> vals | _ -> [])) in
   let out = ref [] in
   let blocked = ref false in
   let stepa a =
@@ -72,12 +74,28 @@ let do_seq fused cap ops =
          | 's' -> (match stepa (Send O) with Some e -> out := ev_str e :: !out | None -> ())
          | 'r' -> (match stepa (Recv O) with Some e -> out := ev_str e :: !out | None -> ())
          | 'c' -> (match stepa (Close O) with Some e -> out := ev_str e :: !out | None -> ())
-         | 'i' -> (match stepa (Next O) with
-             | Some (EvNext _) ->
-               ignore (stepa (Store O)); ignore (stepa (Count O));
-               (match stepa (Entry O) with Some e -> out := ev_str e :: !out | None -> ())
+         | 'i' -> (match stepa (Take O) with
+             | Some (EvTaken _) -> (match stepa (Fin O) with Some e -> out := ev_str e :: !out | None -> ())
              | Some e -> out := ev_str e :: !out
              | None -> ())
+         | 'k' | 'm' ->
+           (* keys(ch) / map(ch): Next, Store, Count, Entry until Next reports the end *)
+           let acc = ref [] in
+           let fin = ref false in
+           while not !fin && not !blocked do
+             match stepa (Next O) with
+             | Some (EvNext _) ->
+               ignore (stepa (Store O)); ignore (stepa (Count O));
+               (match stepa (Entry O) with
+                | Some (EvEntry (_, k, (_, v))) ->
+                  acc := (if o.[0] = 'k' then string_of_int (int_of_nat k)
+                          else Printf.sprintf "%d=%d" (int_of_nat k) (int_of_n v)) :: !acc
+                | _ -> ())
+             | Some (EvIterEnd _) -> fin := true
+             | _ -> ()
+           done;
+           if not !blocked then
+             out := ((if o.[0] = 'k' then "keys:" else "map:") ^ String.concat "|" (List.rev !acc)) :: !out
          | _ -> failwith "bad op") ops
    with Exit -> ());
   String.concat "," (List.rev (if !blocked then "BLOCK" :: !out else !out))
@@ -90,10 +108,10 @@ let do_accept progs logs =
 (* ---- reach: exhaustive exploration of the protocol
    sender i sends its program; the closer closes once every sender is done; receiver j of kind 'r' receives
    until nil, of kind 'i' ranges until the loop ends *)
-let do_reach fused cap progs kinds =
+let do_reach cap progs kinds =
   let progs = parse_progs progs in
   let ns = List.length progs and nr = String.length kinds in
-  let s0 = chan_init fused (nat_of_int cap) (prog_fun progs) in
+  let s0 = chan_init (nat_of_int cap) (prog_fun progs) in
   let key (s : st) (fin : bool array) =
     let b = Buffer.create 64 in
     List.iter (fun (i, v) -> Buffer.add_string b (Printf.sprintf "%d.%d," (int_of_nat i) (int_of_n v))) s.buf;
@@ -109,11 +127,11 @@ let do_reach fused cap progs kinds =
     Buffer.add_string b (Printf.sprintf "|%d|" (int_of_nat s.rxcount));
     List.iter (fun (j, ph, v) -> Buffer.add_string b (Printf.sprintf "%d%s%d," j ph v))
       (List.sort compare (List.map (fun (j, (ph, (_, v))) ->
-           (int_of_nat j, (match ph with Got -> "g" | Stored -> "s" | Counted -> "c"), int_of_n v)) s.iters));
+           (int_of_nat j, (match ph with Taken -> "t" | Got -> "g" | Stored -> "s" | Counted -> "c"), int_of_n v)) s.iters));
     Array.iter (fun f -> Buffer.add_char b (if f then 'F' else '-')) fin;
     Buffer.contents b in
   let niter = ref 0 in
-  String.iter (fun c -> if c = 'i' then incr niter) kinds;
+  String.iter (fun c -> if c = 'p' then incr niter) kinds;
   let keyed = !niter <= 1 in   (* keys of overlapping iterations are a racy read-modify-write: not compared *)
   let outcome (s : st) =
     let per = Array.make nr [] in
@@ -146,7 +164,12 @@ let do_reach fused cap progs kinds =
             let nj = nat_of_int j in
             if kinds.[j] = 'r' then
               try_act (Recv nj) (fun e f -> match e with EvRecvNil _ -> f.(j) <- true | _ -> ())
+            else if kinds.[j] = 'i' then
+              (match List.assoc_opt nj s.iters with
+               | Some (Taken, _) -> try_act (Fin nj) (fun _ _ -> ())
+               | _ -> try_act (Take nj) (fun e f -> match e with EvIterEnd _ -> f.(j) <- true | _ -> ()))
             else match List.assoc_opt nj s.iters with
+              | Some (Taken, _) -> ()
               | Some (Got, _) -> try_act (Store nj) (fun _ _ -> ())
               | Some (Stored, _) -> try_act (Count nj) (fun _ _ -> ())
               | Some (Counted, _) -> try_act (Entry nj) (fun _ _ -> ())
@@ -195,9 +218,9 @@ let () =
        let r =
          try
            match f.(0) with
-           | "seq" -> do_seq (get 1 = "1") (int_of_string f.(2)) (get 3)
+           | "seq" -> do_seq (int_of_string f.(1)) (get 2)
            | "accept" -> do_accept (get 1) (get 2)
-           | "reach" -> do_reach (get 1 = "1") (int_of_string f.(2)) (get 3) (get 4)
+           | "reach" -> do_reach (int_of_string f.(1)) (get 2) (get 3)
            | "spawn" -> do_spawn (get 1) (get 2) (get 3) (get 4) (get 5) (get 6) (int_of_string (get 7))
            | _ -> "BADCMD"
          with Failure m -> "FAIL " ^ m | Not_found -> "FAIL notfound" | Invalid_argument m -> "FAIL " ^ m in
